@@ -232,6 +232,34 @@ def corpus_check(run: core.Run) -> None:
                               + (f", audit events during evaluation {audit}" if audit else ""), {"expr": expr})
     run.evaluations += n
     run.extra["escape_corpus_expressions"] = n
+    # acceptance must depend on the declared variables of THIS compilation, whatever was compiled before
+    # (same evaluator object, and through the sweep factory in one process)
+    from semantiva.utils.safe_eval import ExpressionError, ExpressionEvaluator as _EE
+    for expr in ("x + t", "abs(t) * x", "(x if t else 1)", "min(x, t)"):
+        ev_ = _EE()
+        ev_.compile(expr, {"x", "t"})
+        run.evaluations += 1
+        try:
+            ev_.compile(expr, {"x"})
+            run.violation("history:evaluator-reuse", f"{expr!r} was accepted with declared variables {{x}} after the same evaluator compiled it "
+                          "with {x, t}: 't' is not a declared variable", {"expr": expr})
+        except ExpressionError:
+            pass
+    from semantiva.pipeline import Pipeline
+    def sweep_cfg(names):
+        return [{"processor": "VPairSource", "derive": {"parameter_sweep": {"parameters": {"a": "t * k"},
+                 "variables": {n: {"values": [1.0, 2.0]} for n in names}, "collection": "FloatDataCollection"}}}]
+    try:
+        Pipeline(sweep_cfg(["t", "k"]))
+        run.evaluations += 1
+        try:
+            Pipeline(sweep_cfg(["t"]))
+            run.violation("history:sweep-factory-reuse", "a sweep whose expression 't * k' uses the undeclared variable k was accepted "
+                          "after another sweep declaring {t, k} had been built in the process", {"expr": "t * k"})
+        except Exception:
+            pass
+    except Exception as exc:
+        raise core.MachineryError(f"valid sweep rejected: {exc}")
     # builtins must not be reachable from an evaluated expression's globals
     from semantiva.utils.safe_eval import ExpressionEvaluator
     ev = ExpressionEvaluator()
